@@ -826,6 +826,12 @@ func (e *Engine) runPath(s *State) (err error) {
 		if e.instrs&0xfff == 0 && time.Now().After(e.deadline) {
 			e.errf("wall-clock budget exceeded")
 		}
+		if s.pendingYield {
+			// a release operation (unlock) of this goroutine has just taken effect: the alternatives in which another
+			// goroutine runs first are queued; in them this goroutine resumes at the instruction it is about to execute
+			s.pendingYield = false
+			e.voluntary(s)
+		}
 		f := g.frames[len(g.frames)-1]
 		in := f.block.Instrs[f.ip]
 		e.step(s, f, in)
